@@ -18,8 +18,9 @@ cd "$HERE"
 rc=$?
 if [ "${2:-}" = "quick" ] || [ "${2:-}" = "thorough" ]; then
   pid="$(echo "$1" | tr a-z A-Z)"
-  if [ -f "$HERE/evidence/$pid.json" ] && command -v python3-vt >/dev/null 2>&1; then
-    python3-vt "$HERE/mc/validate_evidence.py" "$HERE/evidence/$pid.json" || { [ $rc -eq 0 ] && rc=2; }
+  EVD="${VERIF_EVIDENCE_DIR:-$HERE/evidence}"
+  if [ -f "$EVD/$pid.json" ] && command -v python3-vt >/dev/null 2>&1; then
+    python3-vt "$HERE/mc/validate_evidence.py" "$EVD/$pid.json" || { [ $rc -eq 0 ] && rc=2; }
   fi
 fi
 exit $rc
